@@ -101,11 +101,12 @@ structure Coup (max : Nat) (s : St) (o : Ob) (m : MS) (x : List CFrame) : Prop w
   rdr2 : ∀ p ∈ locs s, p.2.isRd = true → ∃ b, o.reader = some (p.1, b) ∧ (p.2 = .f → b = false) ∧ (p.2 = .m → b = true)
   rdr3 : ∀ cb b, o.reader = some (cb, b) → kindOf o cb = (if b then .readMsg else .read)
   rdr4 : (∀ cb, o.reader ≠ some (cb, true)) → o.held = [] ∧ o.macc = []
+  rdr5 : ∀ cb b, o.reader = some (cb, b) → cb ∈ s.started
   rdCan : s.rd.isSome = true → s.ws.canRead = true
 
 theorem coup_init (max : Nat) : Coup max {} {} { max := max } [] := by
   refine ⟨rfl, ?_, ?_, rfl, ?_, ?_, fun _ => rfl, Or.inl rfl, rfl, ?_, fun _ => rfl, rfl, fun _ _ => ⟨rfl, rfl⟩, ?_, rfl, ?_, rfl,
-    ?_, ?_, fun _ => ⟨rfl, rfl⟩, ?_⟩
+    ?_, ?_, fun _ => ⟨rfl, rfl⟩, ?_, ?_⟩
   · intro c hc; cases hc
   · intro cb hc; cases hc
   · intro t ht; cases ht
@@ -114,6 +115,7 @@ theorem coup_init (max : Nat) : Coup max {} {} { max := max } [] := by
   · intro g hg; cases hg
   · intro p hp; cases hp
   · intro p hp; cases hp
+  · intro cb b h; cases h
   · intro cb b h; cases h
   · intro h; cases h
 
@@ -205,7 +207,7 @@ theorem coup_fl {max : Nat} {s1 s2 : St} {o : Ob} {m : MS} {x : List CFrame} {ok
   have hcur : o.cur = none := cur_of_not_special h.win (fun t rest e => hns t (e ▸ List.mem_cons_self ..))
   have hp1 : pendW s1 o m.last = [] := pendW_of_not_special o _ (fun t rest e => hns t (e ▸ List.mem_cons_self ..))
   have hp2 : pendW s2 o m.last = [] := pendW_of_not_special o _ (fun t rest e => hns2 t (e ▸ List.mem_cons_self ..))
-  refine ⟨h.max, ?_, ?_, ?_, ?_, ?_, ?_, ?_, ?_, h.subM, ?_, ?_, ?_, h.heldOk, ?_, ?_, ?_, ?_, h.rdr3, h.rdr4, ?_⟩
+  refine ⟨h.max, ?_, ?_, ?_, ?_, ?_, ?_, ?_, ?_, h.subM, ?_, ?_, ?_, h.heldOk, ?_, ?_, ?_, ?_, h.rdr3, h.rdr4, ?_, ?_⟩
   · rw [hstarted, hlog]; exact h.ledMem
   · rw [hstarted]; exact h.ledAll
   · rw [hst, List.filterMap_append, filterMap_quiet new hq, List.nil_append]; exact h.stk
@@ -244,6 +246,7 @@ theorem coup_fl {max : Nat} {s1 s2 : St} {o : Ob} {m : MS} {x : List CFrame} {ok
     rcases hf.rdl p hp with h1 | h1
     · exact h.rdr2 p h1 hr
     · exact (hk p h1).2 hr
+  · rw [hstarted]; exact h.rdr5
   · rw [hrd, hws]; exact h.rdCan
 
 end Sonic.Model.WsAsyncObs
